@@ -398,6 +398,63 @@ def shell_sample(rng, res, n):
                                  '; '.join(bad[:3])))
 
 
+def shell_edge_stream(res):
+    """whole pipeline, edges of the plain text and of the file list: a match
+    that ends with the last character of the plain text (file ending in a
+    comment sign, with and without final line break), and several files of
+    which some have no match, for every context size -- every file part
+    must satisfy the oracle, a negative context shows every line of every
+    file"""
+    A = 'First line of A.\nHere is an errr in A.\nLast line of A.\n'
+    B = 'First line of B with <b> & "quotes".\n\nThird line.\nLast line.\n'
+    sets = [({'t.tex': 'This line is fine.\nHere is an errr%\n'}, ['t.tex']),
+            ({'t.tex': 'This line is fine.\nHere is an errr%'}, ['t.tex']),
+            ({'t.tex': 'This line is fine.\nHere is an errr'}, ['t.tex']),
+            ({'a.tex': A, 'b.tex': B}, ['a.tex', 'b.tex']),
+            ({'a.tex': A, 'b.tex': B}, ['b.tex', 'a.tex']),
+            ({'b.tex': B}, ['b.tex'])]
+    jobs = [(fs, names, ctx) for fs, names in sets for ctx in (-1, 0, 1, 2)]
+    def one(job):
+        fs, names, ctx = job
+        info = []; answers = []
+        for nm in names:
+            tex2, parts = shellcase.shell_parts(fs[nm], 'en-GB', False, 2)
+            plain = parts[0][1]
+            k = plain.find('errr')
+            ms = [shellcase.lt_match(plain, k, 4)] if k >= 0 else []
+            answers.append(json.dumps({'matches': ms}).encode())
+            info.append((nm, tex2, parts, ms))
+        r = shellrun.run_shell(fs, ['--output', 'html', '--context', str(ctx)] + names,
+                               answers=answers)
+        return job, info, r
+    for (fs, names, ctx), info, r in shellrun.pmap(one, jobs):
+        res.count('shell-edge', ('edge', tuple(names), tuple(sorted(fs.items())), ctx),
+                  nontrivial=True)
+        key = 'c16-edge:%d' % ctx
+        case = {'files': fs, 'names': names, 'context': ctx}
+        if r.rc != 0 or r.traceback:
+            res.failures.append((key, case, 'shell failed: rc %d %s' % (r.rc, r.err[-200:])))
+            continue
+        out = r.out.decode('utf-8')
+        body = out[out.find('<body>') + 7:out.rfind('</body>')]
+        secs = body.split('<hr><hr>\n')
+        if len(names) > 1:
+            secs = secs[1:]
+        if len(secs) != len(names):
+            res.failures.append((key, case, '%d file parts in the report, %d files'
+                                 % (len(secs), len(names))))
+            continue
+        for (nm, tex2, parts, ms), sec in zip(info, secs):
+            c = {'tex': tex2, 'cm': parts[0][2] + [parts[0][2][-1]] * 2 if parts[0][2] else [1, 1],
+                 'matches': ms, 'context': ctx, 'file': nm}
+            bad = oracle(c, sec)
+            if not ms and ctx >= 0:
+                bad = [b for b in bad if not b.startswith('negative')]
+            if bad:
+                res.failures.append((key, case, nm + ': ' + '; '.join(bad[:3])))
+                break
+
+
 def run(tier, seed, build, res):
     rng = random.Random(seed)
     res.rule = ('random source files (empty / very long lines, tabs, HTML '
@@ -414,6 +471,7 @@ def run(tier, seed, build, res):
         check_cases(cases[i:i + 5000], res, 'random')
     link_stream(rng, res, 200 if tier == 'quick' else 3000)
     shell_sample(rng, res, 4 if tier == 'quick' else 16)
+    shell_edge_stream(res)
 
 
 def replay(payload, build, res):
